@@ -372,6 +372,8 @@ func TestReplayFile(t *testing.T) {
 		if msg := checkSpelling(c); msg != "" {
 			t.Fatalf("field %q sent as %q: %s", c.Field, c.Spelling, msg)
 		}
+	case doc.Check == "relay":
+		TestRelayAllTablePairs(t) // the enumeration is deterministic; generated relay cases replay through rapid's .fail file
 	case doc.Check == "limits-accept":
 		TestLimitsAcceptWhatIsEmitted(t)
 	default:
